@@ -52,7 +52,13 @@ impl Prop for Echoes {
         vec![("echo_truncated", 200), ("echo_complete", 200)]
     }
     fn strategy(_tier: Tier) -> BoxedStrategy<EchoCase> {
-        let idx = prop_oneof![0u16..10, Just(255u16), Just(256u16), Just(65535u16), any::<u16>()];
+        let idx = prop_oneof![
+            0u16..10,
+            Just(255u16),
+            Just(256u16),
+            Just(65535u16),
+            any::<u16>()
+        ];
         let cmdh = (
             0u8..5,
             any::<bool>(),
@@ -93,7 +99,12 @@ impl Prop for Echoes {
         let p = match ParsedFragment::parse(ParseOptions::default(), &request) {
             Ok(p) => p,
             Err(e) => {
-                out.fail(Fail::new("E-request", format!("the library parser rejects the reference-encoded control request: {e:?}")));
+                out.fail(Fail::new(
+                    "E-request",
+                    format!(
+                        "the library parser rejects the reference-encoded control request: {e:?}"
+                    ),
+                ));
                 return out;
             }
         };
@@ -107,7 +118,10 @@ impl Prop for Echoes {
         let cc = match ControlCollection::from(objs) {
             Ok(cc) => cc,
             Err(_) => {
-                out.fail(Fail::new("E-request", "control objects are not accepted as a control collection"));
+                out.fail(Fail::new(
+                    "E-request",
+                    "control objects are not accepted as a control collection",
+                ));
                 return out;
             }
         };
@@ -121,18 +135,27 @@ impl Prop for Echoes {
         let asked = match flatten(5, &body) {
             Ok(a) => a,
             Err(e) => {
-                out.fail(Fail::new("E-request", format!("reference walker cannot read its own encoding: {e}")));
+                out.fail(Fail::new(
+                    "E-request",
+                    format!("reference walker cannot read its own encoding: {e}"),
+                ));
                 return out;
             }
         };
-        out.label(if result.is_ok() { "echo_complete" } else { "echo_truncated" });
+        out.label(if result.is_ok() {
+            "echo_complete"
+        } else {
+            "echo_truncated"
+        });
         if result.is_err() {
             out.nontrivial = true;
         }
         // (1) it parses
         let mut response = vec![0xC3, 129, 0, 0];
         response.extend_from_slice(echo);
-        let lib_ok = ParsedFragment::parse(ParseOptions::default(), &response).map(|p| p.objects.is_ok()).unwrap_or(false);
+        let lib_ok = ParsedFragment::parse(ParseOptions::default(), &response)
+            .map(|p| p.objects.is_ok())
+            .unwrap_or(false);
         let got = flatten(129, echo);
         if !lib_ok || got.is_err() {
             out.fail(
@@ -154,8 +177,15 @@ impl Prop for Echoes {
             })
             .collect();
         let complete = result.is_ok();
-        if got.len() > want.len() || got[..] != want[..got.len()] || (complete && got.len() != want.len()) {
-            let at = got.iter().zip(want.iter()).position(|(a, b)| a != b).unwrap_or(got.len().min(want.len()));
+        if got.len() > want.len()
+            || got[..] != want[..got.len()]
+            || (complete && got.len() != want.len())
+        {
+            let at = got
+                .iter()
+                .zip(want.iter())
+                .position(|(a, b)| a != b)
+                .unwrap_or(got.len().min(want.len()));
             out.fail(Fail::new("E-echo-objects", format!("echo of {} objects into {} octets of room carries {} objects (writer says {:?}); first difference at object #{at}: echoed {:?}, requested {:?}", want.len(), case.room, got.len(), result, got.get(at), want.get(at))));
         }
         out
